@@ -31,7 +31,12 @@ Share(L, num, den) == Max(1, CeilDiv(L * num, den))
 
 ObjIds(cfg) == DOMAIN cfg.objs
 IsReg(s, o) == \E i \in 1..Len(s.reg) : s.reg[i] = o
-Matches(cfg, o, k) == \E i \in 1..Len(cfg.objs[o].match) : cfg.objs[o].match[i] = k
+(* The library's string matcher compares exactly, or - built case-insensitive (ci) - after folding case on both    *)
+(* sides; cfg.lower is the folding of the keys in use (TLA+ has no string functions).  Lookup names are exact.    *)
+Low(cfg, k) == IF "lower" \in DOMAIN cfg /\ k \in DOMAIN cfg.lower THEN cfg.lower[k] ELSE k
+IsCi(cfg, o) == "ci" \in DOMAIN cfg.objs[o] /\ cfg.objs[o].ci
+Matches(cfg, o, k) == \E i \in 1..Len(cfg.objs[o].match) :
+                        IF IsCi(cfg, o) THEN Low(cfg, cfg.objs[o].match[i]) = Low(cfg, k) ELSE cfg.objs[o].match[i] = k
 
 UnknownShare(cfg, L) ==
   IF cfg.variant.unknown = "contract" THEN Share(L, 0, cfg.den) ELSE cfg.limit
